@@ -802,7 +802,23 @@ func (c *ExecCtx) frameFormula(h string, cur *Term, allowed map[string][]*Term) 
 // must be satisfiable; otherwise every postcondition was proved vacuously
 // (e.g. by a contradictory assumed contract).
 func (u *Unit) exitReach(exits []*State, pos token.Pos) {
-	if len(exits) == 0 || u.quiet > 0 {
+	if u.quiet > 0 {
+		return
+	}
+	if len(exits) == 0 {
+		// no path reaches an exit: either every path died on a contradictory
+		// assumption (vacuity) or the function never returns by design, which
+		// its contract must say (`noreturn`)
+		if u.spec != nil {
+			if _, ok := u.spec.Extra["noreturn"]; ok {
+				return
+			}
+		}
+		u.kindN["vacuity"]++
+		u.obls = append(u.obls, &Obligation{
+			Name: fmt.Sprintf("%s#vacuity.%d", u.name, u.kindN["vacuity"]), Unit: u.name, Kind: "vacuity", Pos: u.pos(pos),
+			Desc: "no exit of the function is reachable on any path (contradictory assumptions, or a never-returning function whose contract lacks `noreturn`)", Status: "failed-static",
+		})
 		return
 	}
 	base := commonPrefix(exits)
